@@ -1,19 +1,32 @@
 #!/usr/bin/env python3
-"""Prints a markdown table of the seeded defects under /verif/seeded and which check caught them (from results.txt)."""
+"""Prints a markdown table of the seeded changes under /verif/seeded: what was changed, and which check catches it
+(latest line per property/tier of results.txt; earlier MISSED lines are the history of a check that was strengthened)."""
 import glob, json, os, re
 rows = []
-for d in sorted(glob.glob('/verif/seeded/C*-*')):
-    m = json.load(open(d + '/meta.json'))
-    res = {}
+for d in sorted(glob.glob('/verif/seeded/C*-*'), key=lambda x: (x.split('/')[-1].split('-')[0], x)):
+    runs = []
     if os.path.exists(d + '/results.txt'):
         for l in open(d + '/results.txt'):
             mm = re.search(r'\[(C\d+) (\w+)\] exit (\d+) (CAUGHT|MISSED) ?(check=\S+)?', l)
-            if mm: res[(mm.group(1), mm.group(2))] = (mm.group(4), (mm.group(5) or '').replace('check=', ''))
+            if mm: runs.append((mm.group(1), mm.group(2), mm.group(4), (mm.group(5) or '').replace('check=', '')))
     patch = open(d + '/patch.diff').read()
     files = sorted(set(re.findall(r'^\+\+\+ b/(\S+)', patch, re.M)))
-    last = list(res.items())[-1] if res else None
-    verdict = f"{last[1][0]} by {last[0][0]} {last[0][1]} (`{last[1][1]}`)" if last else "not run"
-    hist = "; ".join(f"{k[0]} {k[1]}: {v[0]}" for k, v in res.items())
-    rows.append((os.path.basename(d), ", ".join(os.path.basename(f) for f in files), m.get('needs_to_manifest', '')[:160].replace('|', '/'), verdict))
-print("| seeded change | file | needs to manifest | result |\n|---|---|---|---|")
+    readme = open(d + '/README.md', errors='replace').read() if os.path.exists(d + '/README.md') else ''
+    title = ''
+    n = os.path.basename(d).split('-')[1]
+    heads = [l for l in readme.splitlines() if l.startswith('#')]
+    own = [l for l in heads if re.match(rf'^#+\s*change ?{n}\b', l, re.I)]
+    for l in (own or heads)[:1]:
+        title = re.sub(r'^#+\s*change ?\d+(\.diff)?\s*[-:(—]*\s*', '', l, flags=re.I).strip(' -:()—')
+    title = re.sub(r'`?change\d\.diff`?,?\s*`?demo\d\.cpp`?\)?\s*[-:]*\s*', '', title)[:150].replace('|', '/')
+    latest = {}
+    for r in runs: latest[(r[0], r[1])] = r
+    caught = [f"{k[0]} {k[1]} (`{v[3]}`)" for k, v in latest.items() if v[2] == 'CAUGHT']
+    missed_now = [f"{k[0]} {k[1]}" for k, v in latest.items() if v[2] == 'MISSED']
+    n_missed_before = sum(1 for r in runs if r[2] == 'MISSED' and latest[(r[0], r[1])][2] == 'CAUGHT')
+    verdict = ("caught by " + ", ".join(caught)) if caught else ("MISSED" if runs else "not run")
+    if missed_now and caught: verdict += "; not by " + ", ".join(missed_now)
+    if n_missed_before: verdict += f" — after strengthening (missed {n_missed_before}x before)"
+    rows.append((os.path.basename(d), ", ".join(os.path.basename(f) for f in files), title, verdict))
+print("| seeded change | file | what the change does | result |\n|---|---|---|---|")
 for r in rows: print("| " + " | ".join(r) + " |")
